@@ -98,6 +98,11 @@ func snapshotLine(l *client.Line) *client.Line {
 
 func seqOf(l *client.Line) int {
 	if len(l.Args) < 2 {
+		// (parameterless events of the handler-history world carry it as a tag)
+		var n int
+		if _, err := fmt.Sscanf(l.Tags["seq"], "%d", &n); err == nil && l.Tags["hist"] != "" {
+			return n
+		}
 		return -1
 	}
 	var n int
@@ -1161,6 +1166,13 @@ type hReg struct {
 func handlerHistory(e *Env) {
 	g := G{e.S}
 	names := []string{"foo", "bar", "baz"}[:g.Range(1, 3)]
+	if g.Pct(30) {
+		// an event whose built-in handler panics (a PING without its parameter;
+		// the panic is the recovery function's business): the user's handlers for
+		// the event are invoked all the same
+		names = append(names, "ping")
+		e.S.Count("probe.event-whose-built-in-handler-panics")
+	}
 	s := startSession(e, g.Knobs(ClientOpts{Nick: "me", Flood: true}), func(l *simnet.Link) { l.ChunkMode = g.Intn(4); l.Window = []int{0, 0, 0, 16, 64, 300}[g.Intn(6)] })
 	var regs []*hReg
 	type evt struct {
@@ -1239,7 +1251,7 @@ func handlerHistory(e *Env) {
 			if g.S.Choose(3) == 0 {
 				simrt.Sleep(0)
 			}
-			if q == endAt && !h.bg && !ended {
+			if q >= 0 && q == endAt && !h.bg && !ended {
 				ended = true
 				e.S.Count("fault.connection-ended-under-a-registering-handler")
 				how := g.S.Choose(2)
@@ -1257,15 +1269,15 @@ func handlerHistory(e *Env) {
 					removeH(o)
 				}
 			}
-			if q == h.selfRemoveAt {
+			if q >= 0 && q == h.selfRemoveAt {
 				e.S.Count("probe.self-removal-inside-handler")
 				removeH(h)
 			}
-			if q == h.addAt {
+			if q >= 0 && q == h.addAt {
 				e.S.Count("probe.registration-inside-handler")
 				register(h.name, g.S.Choose(2) == 0, false, "handler")
 			}
-			if q == h.removeOtherAt {
+			if q >= 0 && q == h.removeOtherAt {
 				if o := pickLive(h.name, h.bg, h); o != nil {
 					e.S.Count("probe.removal-of-sibling-inside-handler")
 					removeH(o)
@@ -1373,7 +1385,11 @@ func handlerHistory(e *Env) {
 		ev := &evt{seq: i, name: nm}
 		evts = append(evts, ev)
 		ev.sent = e.S.Stamp()
-		s.l.SendLine(fmt.Sprintf(":u!i@h.sim %s #c %d :x", wireName, i))
+		if nm == "ping" {
+			s.l.SendLine(fmt.Sprintf("@seq=%d;hist=1 %s", i, wireName))
+		} else {
+			s.l.SendLine(fmt.Sprintf(":u!i@h.sim %s #c %d :x", wireName, i))
+		}
 		switch g.S.Choose(3) {
 		case 0:
 			simrt.Sleep(time.Duration(g.S.Choose(5)) * time.Millisecond)
